@@ -17,8 +17,23 @@ handed out so far, prefixed by `err=<Class> ` when the op raised):
   view <p>                stream[p]                  (registers a handle h<k> when a new view object appears)
   wview <k> <i> <x>       h<k>.imol[chem_i] = x      wpar <p|-> <i> <x>   stream.imol[p, chem_i] = x
   wT <x> | wP <x>         stream.T / stream.P = x    wvT <k> <x> | wvP <k> <x>   the same through a view
+  vphase <k> <p>          h<k>.phase = p             (the phase of a view is locked)
   save                    snapshots.append(stream.get_data())
   restore <k>             stream.set_data(snapshots[k])
+
+Property oracle (real objects only), failure signatures:
+  <op>/totals-changed, <op>/TP-changed   a conversion changed a per-chemical total / T / P
+  <op>/row-moved                         the phase set afterwards contains every non-empty phase up to case, but some
+                                         phase does not hold exactly the material whose destination it is (exact label
+                                         if present, other-case label only if not)
+  <op>/phase-dropped                     reduce_phases / as_stream left a non-empty phase without a place
+  sphases/wrong-phase-set                `phases = t` succeeded but the phase tuple is not t
+  raises-in-precondition:<S|M>           a conversion raised although its target contains every non-empty phase
+  failed-conversion-corrupts             a conversion raised and changed the stream (or left it unusable)
+  stale-view                             a view in `_streams` is not live (probe: write through one side, read through
+                                         the other, T/P likewise; every probe is undone)
+  restore/raises, restore/mismatch       set_data of a snapshot raised / did not reproduce what get_data saw
+  <op>/contents-changed                  view, save, T/P writes or a (refused) view.phase assignment changed flows/phases
 """
 from __future__ import annotations
 import random, warnings
@@ -63,7 +78,7 @@ def setup():
 
 def budget(tier):
     return {'quick': dict(seconds=45, cases=2400, shrink_s=15, search_s=10),
-            'thorough': dict(seconds=400, cases=60000, shrink_s=40, search_s=30)}[tier]
+            'thorough': dict(seconds=420, cases=160000, shrink_s=40, search_s=30)}[tier]
 
 
 def swap(p):
@@ -205,6 +220,8 @@ class Universe:
             self.handles[int(t[1])].T = float(Fraction(t[2]))
         elif op == 'wvP':
             self.handles[int(t[1])].P = float(Fraction(t[2]))
+        elif op == 'vphase':
+            self.handles[int(t[1])].phase = t[2]
         elif op == 'save':
             self.snaps.append(s.get_data())
             self.snap_obs.append(self.obs())
@@ -262,6 +279,9 @@ class Universe:
         if op == 'sphase' and k0 == 'S':
             return out
         # rows: each non-empty phase's material stays in that phase, case-folded only when the exact label is absent
+        if op in ('reduce', 'asstream') and not all((p in ph1) or (swap(p) in ph1) for p in ne0):
+            # "collapsing to the phases actually present": no non-empty phase may lose its place
+            out.append((f'{op}/phase-dropped', f'`{line}`: non-empty phases {ne0} but phases afterwards are {ph1}'))
         if all((p in ph1) or (swap(p) in ph1) for p in ne0):
             want = {q: [Fraction(0)] * N for q in ph1}
             for p in ne0:
@@ -347,7 +367,7 @@ def run_ops(ops):
                                        f'{U.nonempty(pre)}, snapshot has phases {U.snap_obs[k][1]}')
             elif post != U.snap_obs[k]:
                 fail('restore/mismatch', f'set_data(snapshot {k}) gave {post} where get_data saw {U.snap_obs[k]}')
-        elif op in ('view', 'save', 'wT', 'wP', 'wvT', 'wvP') and post is not None and pre is not None:
+        elif op in ('view', 'save', 'wT', 'wP', 'wvT', 'wvP', 'vphase') and post is not None and pre is not None:
             # none of these may change the contents
             if (pre[0], pre[1], pre[2]) != (post[0], post[1], post[2]):
                 fail(f'{op}/contents-changed', f'`{line}` changed the flows or phases')
@@ -431,9 +451,9 @@ def gen_op(rng, U):
     o = U.obs()
     phases = o[1]
     kinds = ['sphases', 'sphase', 'reduce', 'asstream', 'vle', 'lle', 'sle', 'view', 'wview', 'wpar',
-             'wT', 'wP', 'wvT', 'wvP', 'save', 'restore', 'empty']
+             'wT', 'wP', 'wvT', 'wvP', 'save', 'restore', 'empty', 'vphase']
     w = [16, 6, 5, 4, 4, 4, 4, 14 if k == 'M' else 0, 8 if U.handles else 0, 12,
-         3, 2, 3 if U.handles else 0, 1 if U.handles else 0, 6, 8 if U.snaps else 0, 1]
+         3, 2, 3 if U.handles else 0, 1 if U.handles else 0, 6, 8 if U.snaps else 0, 1, 1 if U.handles else 0]
     op = rng.choices(kinds, w)[0]
     if op == 'sphases':
         return 'sphases ' + ','.join(gen_target(rng, U))
@@ -463,6 +483,9 @@ def gen_op(rng, U):
     if op == 'wvT': return f'wvT {rng.randrange(len(U.handles))} {gen_T(rng)}'
     if op == 'wvP': return f'wvP {rng.randrange(len(U.handles))} {gen_P(rng)}'
     if op == 'restore': return f'restore {rng.randrange(len(U.snaps))}'
+    if op == 'vphase':
+        h = rng.randrange(len(U.handles))
+        return f'vphase {h} {U.handles[h].phase if rng.random() < 0.4 else rng.choice(PHASES)}'
     return 'save'
 
 
@@ -540,6 +563,14 @@ def corpus():
         Case(['new M L,S,g 300 101325 L:1,0,0;S:0,2,0', 'reduce', 'asstream', 'sphases l,s']),
         Case(['new M L,S,g 300 101325 -', 'asstream', 'sphases g,l', 'reduce']),
         Case(['new M g,l 300 101325 l:1,0,0;g:0,2,0', 'view g', 'sphases g', 'wview 0 0 4', 'wvT 0 350', 'sphases g,l', 'view g']),
+        # a snapshot is a copy: later writes must not leak into it
+        Case(['new S g 300 101325 3,0,0', 'save', 'wpar - 0 5', 'wT 350', 'sphase l', 'restore 0']),
+        Case(['new M g,l 300 101325 l:1,0,0;g:0,2,0', 'save', 'wpar l 0 5', 'view l', 'wview 0 1 1', 'restore 0']),
+        # both liquid labels present: 'l' and 'L' are different rows
+        Case(['new M L,l 300 101325 L:1,0,0', 'wpar l 1 2', 'wpar L 2 3', 'view l', 'view L', 'vphase 0 L', 'vphase 1 L']),
+        # reduce_phases keeps a place for upper-case phases
+        Case(['new M L,s 300 101325 L:0,0,95;s:225/4,0,0', 'reduce']),
+        Case(['new M L,S,g 300 101325 S:1,0,0', 'asstream']),
     ]
 
 
